@@ -94,3 +94,8 @@ pub use crate::rpm::*;
 
 #[cfg(test)]
 mod tests;
+
+// Verification harnesses (Kani); compiled only by the Kani compiler, which sets cfg(kani).
+#[cfg(kani)]
+#[path = "/verif/harness/root.rs"]
+mod verif_kani;
